@@ -165,6 +165,29 @@ func towerEntries(c *mon.Ctx) {
 			seed := c.Seed
 			register(&entry{Name: name, Shapes: 1, Sample: func(i, shape int) any {
 				v := make(ofield.El, deg)
+				if i >= 9 && i <= 11 {
+					// special classes that select rare branches (square roots, inverses, sparse products): an element of
+					// the base field that is a non-residue there (9), -1 (10), an element with only its second
+					// coordinate set (11)
+					for k := range v {
+						v[k] = new(big.Int)
+					}
+					switch i {
+					case 9:
+						nr := big.NewInt(2)
+						for big.Jacobi(nr, P) != -1 {
+							nr.Add(nr, big.NewInt(1))
+						}
+						v[0] = nr
+					case 10:
+						v[0] = new(big.Int).Sub(P, big.NewInt(1))
+					default:
+						v[1%deg] = hashInt(seed, name, i, 1, P)
+					}
+					np := reflect.New(T)
+					towers.Unflatten(np.Interface(), v)
+					return np.Interface()
+				}
 				for k := range v {
 					switch {
 					case i == 0:
@@ -193,7 +216,9 @@ func towerEntries(c *mon.Ctx) {
 var skip = map[string]bool{"SetRandom": true, "MustSetRandom": true, "String": true, "Text": true, "SetString": true, "SetInterface": true,
 	"UnmarshalJSON": true, "MarshalJSON": true, "Unmarshal": true, "UnmarshalBinary": true, "MarshalBinary": true, "ReadFrom": true, "WriteTo": true,
 	"AsyncReadFrom": true, "SetBytes": true, "SetBytesCanonical": true, "Bytes": true, "RawBytes": true, "Marshal": true, "Less": true, "Swap": true, "Len": true,
-	"FoldParallel": true}
+	"FoldParallel": true,
+	// the pointer argument of these is the documented destination, not an operand
+	"BigInt": true, "ToBigIntRegular": true}
 
 var bigPtrT = reflect.TypeOf((*big.Int)(nil))
 
@@ -205,10 +230,21 @@ type meth struct {
 }
 
 // otherArg builds a value for a parameter that is not an alias candidate; ok=false when unsupported.
-func otherArg(t reflect.Type, k int, shape int) (reflect.Value, bool) {
+func otherArg(t reflect.Type, k int, shape int, variant ...int) (reflect.Value, bool) {
 	switch {
 	case t == bigPtrT:
-		return reflect.ValueOf(big.NewInt(int64(5 + 3*k))), true
+		v := int64(5 + 3*k)
+		if len(variant) > 0 {
+			switch variant[0] % 4 {
+			case 1:
+				v = -v // negative exponents / scalars take their own branch (inverse, negation of a copy)
+			case 2:
+				v = 0
+			case 3:
+				return reflect.ValueOf(new(big.Int).Neg(new(big.Int).Lsh(big.NewInt(int64(3+k)), 70))), true
+			}
+		}
+		return reflect.ValueOf(big.NewInt(v)), true
 	case t.Kind() == reflect.Int:
 		return reflect.ValueOf(k % 3).Convert(t), true
 	case t.Kind() == reflect.Uint64 || t.Kind() == reflect.Uint32 || t.Kind() == reflect.Uint:
@@ -307,7 +343,17 @@ func runEntry(c *mon.Ctx, e *entry, skipped map[string]bool) {
 			}
 		}
 		if len(alias) == 0 {
-			continue // nothing can alias
+			// nothing can alias; the method is still run (receiver alone) when it takes other inputs by pointer
+			// (*big.Int exponents / scalars): they are operands that must be left unchanged
+			hasPtrInput := false
+			for k := 1; k < mt.NumIn(); k++ {
+				if mt.In(k).Kind() == reflect.Pointer {
+					hasPtrInput = true
+				}
+			}
+			if !hasPtrInput || !supported || mt.IsVariadic() {
+				continue
+			}
 		}
 		if !supported || mt.IsVariadic() {
 			skipped[e.Name+"."+m.Name] = true
@@ -327,10 +373,14 @@ func runEntry(c *mon.Ctx, e *entry, skipped map[string]bool) {
 					continue
 				}
 				// value assignments: a few choices of distinct / equal values per block
-				for va := 0; va < c.Pick(4, 50); va++ {
+				for va := 0; va < c.Pick(7, 50); va++ {
 					vals := make([]int, nblocks)
 					for b := range vals {
-						if va >= 4 { // thorough: further generic / special mixtures
+						if va >= 4 && va <= 6 { // special classes of the type (towers: indexes 9..11, see towerEntries)
+							vals[b] = 9 + (va+b)%3
+							continue
+						}
+						if va >= 7 { // thorough: further generic / special mixtures
 							vals[b] = (va*7 + (3+va/23)*b) % 23
 							continue
 						}
@@ -356,6 +406,10 @@ func runEntry(c *mon.Ctx, e *entry, skipped map[string]bool) {
 func runCase(c *mon.Ctx, e *entry, m reflect.Method, key string, alias, part, vals []int, shape int) {
 	mt := m.Type
 	recvIsPtr := mt.In(0).Kind() == reflect.Pointer
+	variant := 0
+	for _, v := range vals {
+		variant += v
+	}
 	build := func(aliased bool) (recv reflect.Value, args []reflect.Value, objs []reflect.Value) {
 		objs = make([]reflect.Value, len(part)) // pointer per position
 		if aliased {
@@ -389,7 +443,7 @@ func runCase(c *mon.Ctx, e *entry, m reflect.Method, key string, alias, part, va
 				}
 				ai++
 			} else {
-				v, _ := otherArg(mt.In(k), k, shape)
+				v, _ := otherArg(mt.In(k), k, shape, variant)
 				args[k-1] = v
 			}
 		}
@@ -451,6 +505,34 @@ func runCase(c *mon.Ctx, e *entry, m reflect.Method, key string, alias, part, va
 				}
 			}
 			c.Fail(key+"/aliased-return-differs/"+fmt.Sprint(part), "%s: returned %v vs %v", desc(), a.Interface(), b.Interface())
+		}
+	}
+	// arguments that are not alias candidates (*big.Int exponents and scalars, operands of other types) are inputs:
+	// unchanged after both calls
+	for k := 1; k < mt.NumIn(); k++ {
+		isAlias := false
+		for _, a := range alias {
+			if a == k {
+				isAlias = true
+			}
+		}
+		if isAlias || mt.In(k).Kind() != reflect.Pointer {
+			continue
+		}
+		ref, ok := otherArg(mt.In(k), k, shape, variant)
+		if !ok {
+			continue
+		}
+		for run, got := range []reflect.Value{fa[k-1], aa[k-1]} {
+			eq := false
+			if mt.In(k) == bigPtrT {
+				eq = got.Interface().(*big.Int).Cmp(ref.Interface().(*big.Int)) == 0
+			} else {
+				eq = reflect.DeepEqual(got.Elem().Interface(), ref.Elem().Interface())
+			}
+			if !eq {
+				c.Fail(key+"/input-argument-modified", "%s: argument %d (%s) changed by the call (run %d: 0 = distinct objects, 1 = aliased): now %v, was %v", desc(), k, mt.In(k), run, got.Interface(), ref.Interface())
+			}
 		}
 	}
 	// operands that are not in the receiver's block must be unchanged (in both runs)
